@@ -44,7 +44,8 @@ def run(ctx, rep):
     rep.floor("Q1", "paths of range_contains", len(paths), 2)
     ok_shape = True
     for p in paths:
-        if p.exit != "return" or not (isinstance(p.ret, Const) and p.ret.kind == "bool") or p.effects:
+        ret_lit = isinstance(p.ret, Opaque) and literal(p.ret.label) is not None   # `a && (b <= c)`: the last comparison is returned as it is
+        if p.exit != "return" or not ((isinstance(p.ret, Const) and p.ret.kind == "bool") or ret_lit) or p.effects:
             ok_shape = False
             rep.fail("Q1", "C16|Q1|shape", cfg.where(fn), "range_contains must be loop-free, effect-free and return a constant bool per path; got exit=%s ret=%r effects=%r" % (p.exit, p.ret, p.effects))
         for l, v in p.conds:
@@ -69,7 +70,12 @@ def run(ctx, rep):
             if len(matching) != 1:
                 rep.fail("Q1", "C16|Q1|order|%s|paths" % key, cfg.where(fn), "%d paths match order type %s" % (len(matching), key))
                 continue
-            got = matching[0].ret.v
+            r_ = matching[0].ret
+            if isinstance(r_, Const):
+                got = r_.v
+            else:
+                ll = literal(r_.label)
+                got = holds(ll[0], rel[(ll[1], ll[2])], ll[3])
             rep.check(got == spec, "Q1", "C16|Q1|order|%s" % key, cfg.where(fn),
                       "order type (%s): containment must be %s (inclusive at both ends, lexicographic on (line, column)); the code returns %s" % (key, spec, got),
                       witness={"order_type": key, "expected": spec, "got": got},
